@@ -2343,7 +2343,7 @@ def generate_fwd():
     cls = {n.name: n for n in tree.body if isinstance(n, ast.ClassDef)}
     tr = FwdTr()
     lines = ["/- GENERATED by harness/py2lean.py from %s of /repo on every run - do not edit. -/" % SPEC_FILE,
-             "import Rtamt.Py.Fwd", "", "namespace Rtamt.Py.Gen.Fwd", "open Rtamt Rtamt.Py Rtamt.Py.Fwd", ""]
+             "import Rtamt.Py.Fwd", "import Rtamt.Py.Sem", "", "namespace Rtamt.Py.Gen.Fwd", "open Rtamt Rtamt.Py Rtamt.Py.Fwd", ""]
     for cname, mname in FWD_METHODS:
         c = cls.get(cname)
         cands = [n for n in (c.body if c is not None else []) if isinstance(n, ast.FunctionDef) and n.name == mname]
@@ -2371,6 +2371,25 @@ def generate_fwd():
                               "false" if (isinstance(v, ast.Constant) and v.value is False) else None
                         inits.append("(%s, %s, %s)" % (q(cname), q(tr.self_attr(st.targets[0])),
                                                       ("some " + val) if val else "none"))
+    # what the forwarded call does inside the interpreter: `DiscreteTimeInterpreter.set_sampling_period` (the default values of
+    # its parameters are dropped: the specification-level method passes all three arguments)
+    try:
+        itree = ast.parse(open(os.path.join(REPO, INTERP_FILE)).read())
+        icls = [n for n in itree.body if isinstance(n, ast.ClassDef) and n.name == "DiscreteTimeInterpreter"][0]
+        for n in icls.body:
+            if isinstance(n, ast.FunctionDef) and n.name == "set_sampling_period":
+                n.args.defaults = []
+        itr = Tr(icls)
+        itr.interp = True
+        itr.clock = True
+        itr.parents = {}
+        itr.normalize_expr = None
+        t = itr.method("set_sampling_period") or "{ params := [], body := .unsupported \"missing method\", ret := none }"
+    except (OSError, IndexError) as e:
+        t = "{ params := [], body := .unsupported %s, ret := none }" % q(str(e))
+    lines.append("/-- `DiscreteTimeInterpreter.set_sampling_period` -/")
+    lines.append("def interp_set_sampling_period : Rtamt.Py.Method :=\n  %s" % t)
+    lines.append("")
     lines.append("/-- the `*_flag` attributes the constructors assign: (class, attribute, initial value) -/")
     lines.append("def initFlags : List (String × String × Option Bool) :=\n  [%s]" % ", ".join(inits))
     lines.append("")
